@@ -4,10 +4,58 @@ go 1.23
 
 require (
 	github.com/anishathalye/porcupine v1.3.0
+	github.com/baidu/go-lib v0.0.0-20200819072111-21df249f5e6a
 	github.com/bfenetworks/bfe v0.0.0
+	github.com/miekg/dns v1.1.29
+	github.com/spaolacci/murmur3 v1.1.0
 	go.etcd.io/gofail v0.2.0
+	golang.org/x/net v0.0.0-20201021035429-f5854403a974
 )
 
-require github.com/spaolacci/murmur3 v1.1.0 // indirect
+require (
+	github.com/abbot/go-http-auth v0.4.1-0.20181019201920-860ed7f246ff // indirect
+	github.com/andybalholm/brotli v1.0.0 // indirect
+	github.com/armon/go-radix v1.0.0 // indirect
+	github.com/asergeyev/nradix v0.0.0-20170505151046-3872ab85bb56 // indirect
+	github.com/aymerick/douceur v0.2.0 // indirect
+	github.com/chris-ramon/douceur v0.2.0 // indirect
+	github.com/dgrijalva/jwt-go v3.2.0+incompatible // indirect
+	github.com/elastic/go-sysinfo v1.1.1 // indirect
+	github.com/gomodule/redigo v2.0.0+incompatible // indirect
+	github.com/gorilla/css v1.0.0 // indirect
+	github.com/jehiah/go-strftime v0.0.0-20171201141054-1d33003b3869 // indirect
+	github.com/joeshaw/multierror v0.0.0-20140124173710-69b34d4ec901 // indirect
+	github.com/json-iterator/go v1.1.10 // indirect
+	github.com/microcosm-cc/bluemonday v1.0.3 // indirect
+	github.com/modern-go/concurrent v0.0.0-20180228061459-e0a39a4cb421 // indirect
+	github.com/modern-go/reflect2 v0.0.0-20180701023420-4b7aa43c6742 // indirect
+	github.com/opentracing-contrib/go-observer v0.0.0-20170622124052-a52f23424492 // indirect
+	github.com/opentracing/opentracing-go v1.1.0 // indirect
+	github.com/openzipkin-contrib/zipkin-go-opentracing v0.4.5 // indirect
+	github.com/openzipkin/zipkin-go v0.2.2 // indirect
+	github.com/oschwald/geoip2-golang v1.4.0 // indirect
+	github.com/oschwald/maxminddb-golang v1.6.0 // indirect
+	github.com/pkg/errors v0.9.1 // indirect
+	github.com/prometheus/procfs v0.0.3 // indirect
+	github.com/russross/blackfriday/v2 v2.0.1 // indirect
+	github.com/shurcooL/sanitized_anchor_name v1.0.0 // indirect
+	github.com/tjfoc/gmsm v1.3.2 // indirect
+	github.com/uber/jaeger-client-go v2.22.1+incompatible // indirect
+	github.com/uber/jaeger-lib v2.2.0+incompatible // indirect
+	github.com/zmap/go-iptree v0.0.0-20170831022036-1948b1097e25 // indirect
+	go.elastic.co/apm v1.7.2 // indirect
+	go.elastic.co/apm/module/apmhttp v1.7.2 // indirect
+	go.elastic.co/apm/module/apmot v1.7.2 // indirect
+	go.elastic.co/fastjson v1.0.0 // indirect
+	go.uber.org/atomic v1.6.0 // indirect
+	golang.org/x/crypto v0.0.0-20200622213623-75b288015ac9 // indirect
+	golang.org/x/sys v0.0.0-20210119212857-b64e53b001e4 // indirect
+	golang.org/x/text v0.3.3 // indirect
+	google.golang.org/grpc v1.22.1 // indirect
+	gopkg.in/gcfg.v1 v1.2.3 // indirect
+	gopkg.in/square/go-jose.v2 v2.4.1 // indirect
+	gopkg.in/warnings.v0 v0.1.2 // indirect
+	howett.net/plist v0.0.0-20181124034731-591f970eefbb // indirect
+)
 
 replace github.com/bfenetworks/bfe => /repo
